@@ -454,14 +454,44 @@ func runC03(c *Ctx) {
 				problems = append(problems, fmt.Sprintf("Create failed: %v %v", errA, errB))
 				return
 			}
+			// the first builder used again with another client (the client given
+			// last is the one a controller lists and watches), the second one with
+			// a client given to the lister builder first and to the builder after
+			srvC, srvD := fakeapi.New(), fakeapi.New()
+			srvC.Set(2, 3, labSets[1], 1)
+			srvD.Set(1, 3, labSets[2], 1)
+			srvD.Set(2, 2, labSets[0], 1)
+			bA = bA.Client(client.NewClient(srvC.List, srvC.Watch))
+			cC, errC := bA.Create()
+			bB.Lister().Client(client.NewClient(srvA.List, srvA.Watch))
+			bB = bB.Client(client.NewClient(srvD.List, srvD.Watch))
+			cD, errD := bB.Create()
+			if errC != nil || errD != nil {
+				problems = append(problems, fmt.Sprintf("Create on a builder used again failed: %v %v", errC, errD))
+				return
+			}
 			defer func() {
 				pert.SetLevel(0)
 				cA.Close()
 				cB.Close()
+				cC.Close()
+				cD.Close()
 				sched.Settle()
 			}()
 			time.Sleep(9 * time.Second)
 			pert.Barrier()
+			srvC.Set(1, 1, labSets[0], 1)
+			srvD.Delete(1, 3)
+			time.Sleep(100 * time.Millisecond)
+			pert.Barrier()
+			gotC, _ := cacheIDs(cC.Cache())
+			gotD, _ := cacheIDs(cD.Cache())
+			if want := objIDs(srvC.Objects()); !sameInts(gotC, want) {
+				problems = append(problems, fmt.Sprintf("a controller created from a builder used again with another client holds %v, the server of that client %v", gotC, want))
+			}
+			if want := objIDs(srvD.Objects()); !sameInts(gotD, want) {
+				problems = append(problems, fmt.Sprintf("a controller whose builder got a lister client first and a client for both afterwards holds %v, the server of the latter %v", gotD, want))
+			}
 			gotA, _ := cacheIDs(cA.Cache())
 			gotB, _ := cacheIDs(cB.Cache())
 			if want := objIDs(srvA.Objects()); !sameInts(gotA, want) {
